@@ -20,7 +20,7 @@ VS = "auth::SigV4Authenticator::validate_signature"
 NEUTRAL = (
     r"^hex::encode$", r"::as_bytes$", r"^std::convert::AsRef::as_ref$", r"^std::ops::Deref::deref$", r"^std::convert::Into::into$", r"^std::convert::From::from$",
     r"^std::clone::Clone::clone$", r"::to_owned$", r"::to_vec$", r"::len$", r"^std::borrow::Borrow::borrow$",
-    r"^crypto::hmac_sha256$", r"^hmac::Mac::(new_from_slice|update|finalize)$", r"CtOutput::<T>::into_bytes$", r"^std::result::Result::<T, E>::expect$",
+    r"^crypto::hmac_sha256$", r"^hmac::Mac::(new_from_slice|update|chain_update|finalize)$", r"CtOutput::<T>::into_bytes$", r"^std::result::Result::<T, E>::expect$",
     r"^signing_key::GetSigningKeyResponse::signing_key$", r"^subtle::ConstantTimeEq::ct_eq$", r"^std::mem::drop$", r"slice::<impl \[T\]>::copy_from_slice$", r"<impl \[T; N\]>::as_slice$|array::<impl \[T; N\]>::as_slice$",
 )
 FMT_CALLS = (r"^core::fmt::rt::Argument::<'_>::new_\w+$", r"^std::fmt::Arguments::<'a>::new\w*$", r"^log::__private_api::log$", r"^std::string::String::from_utf8_lossy$")
